@@ -197,6 +197,14 @@ def run(ctx):
             ctx.violation({"kind": "replay", "history": j, "threads": 1, "result": r_.get("value"),
                            "how": "the same call made twice in a row (on the same out= buffer) returned different bits"},
                           key="purity/repeat-differs/%s" % n)
+        if r_.get("reuse_same") is False:
+            ctx.violation({"kind": "replay", "history": j, "threads": 1,
+                           "how": "call, overwrite the ndarray arguments IN PLACE with the values of the next argument set, call "
+                                  "again on the same objects: the result differs from the call on fresh objects holding those "
+                                  "values (harness/purity_worker.py, reuse_same)"},
+                          key="purity/result-depends-on-object-history/%s" % n)
+        if "reuse_same" in r_:
+            ctx.notes["reuse_same_object_jobs"] = ctx.notes.get("reuse_same_object_jobs", 0) + 1
         if not r_.get("args_same", True):
             ctx.violation({"kind": "replay", "history": j, "threads": 1, "arguments_changed": r_.get("args_changed"),
                            "how": "an argument was modified by the call (clean single-threaded process); positions "
